@@ -37,7 +37,8 @@ DEFAULT_WHITELIST = [
     "schemathesis.auths",
     "schemathesis.cli.commands.run.executor",
     "schemathesis.cli.commands.run.context",
-    "schemathesis.cli.commands.run.handlers.cassettes",
+    # cassettes.py is deliberately NOT line-instrumented: its writers loop character by character over bodies (tens of
+    # millions of line events for a 40 kB body); the writer threads still yield at every queue operation and disk stall
     "schemathesis.cli.commands.run.handlers.junitxml",
 ]
 SCHEMA_WHITELIST = [
